@@ -387,4 +387,203 @@ theorem roundtrip_excluded_point :
       = some { protocol := (1, 5), software := some "bar".toList, comments := none, validAscii := true } := by
   decide +kernel
 
+
+/-! ### header text and banner are told apart (`SSH_Socket.get_banner`) -/
+
+/-- a line of nothing but (Unicode) whitespace is never a banner -/
+theorem blank_not_banner (t : Str) (h : isBlankLine t = true) : parse t = none := by
+  cases t with
+  | nil => rfl
+  | cons c t =>
+    simp only [isBlankLine, List.all_cons, Bool.and_eq_true] at h
+    have hS : san c ≠ 'S' := by
+      unfold san
+      split
+      · next hp =>
+        have := space_printable c hp
+        rw [h.1] at this
+        rw [isBlank_eq c this.symm]
+        decide
+      · decide
+    have hm : matchProto (toPrintAscii (c :: t)) = none := by
+      rw [toPrint_cons]
+      apply matchProto_not_prefix
+      simp [List.isPrefixOf, Ne.symm hS]
+    simp [parse, rxBanner, hm]
+
+/-- **header separation, whole lines.**  The peer's bytes arrive in any number of `recv`
+    results, each made of whole LF-terminated lines (`wire`; a CR before the LF is part of the
+    line and stripped like any trailing whitespace: `lineText_crlf`).  If no line before `l`
+    is a banner and `l` is one, then `get_banner` returns exactly the parse of `l`, the header
+    is exactly the non-blank earlier lines in order, and nothing behind `l` is consumed
+    (`after` stays unread; later `recv` results are not requested). -/
+theorem header_separation (pre : List (List Bytes)) (hs : List Bytes) (l : Bytes) (b : Banner.Banner)
+    (after : Bytes) (later : List Bytes) (h0 : List Str)
+    (hpre : ∀ ch ∈ pre, ch ≠ [] ∧ ∀ r ∈ ch, (0x0a : UInt8) ∉ r ∧ parse (lineText r) = none)
+    (hhs : ∀ r ∈ hs, (0x0a : UInt8) ∉ r ∧ parse (lineText r) = none)
+    (hl : (0x0a : UInt8) ∉ l) (hb : parse (lineText l) = some b) :
+    getBanner h0 (pre.map wire ++ (wire hs ++ (l ++ 0x0a :: after)) :: later)
+      = { banner := some b, header := h0 ++ shown (pre.flatten ++ hs), unread := after } := by
+  induction pre generalizing h0 with
+  | nil =>
+    have hne : (wire hs ++ (l ++ 0x0a :: after)).isEmpty = false := by
+      cases hw : wire hs <;> cases l <;> simp
+    have hnb : isBlankLine (lineText l) = false := by
+      cases hbl : isBlankLine (lineText l) with
+      | false => rfl
+      | true =>
+        have := blank_not_banner _ hbl
+        rw [hb] at this
+        cases this
+    simp only [List.map_nil, List.nil_append, List.flatten_nil, getBanner, hne]
+    rw [splitLines_wire hs _ (fun r hr => (hhs r hr).1), splitLines_line l after hl,
+      scan_pass h0 _ _ (by
+        intro r hr
+        obtain ⟨x, hx, rfl⟩ := List.mem_map.mp hr
+        rw [lineText_lf]; exact (hhs x hx).2)]
+    simp only [scan, lineText_lf, hnb, hb, shown_lf, flatten_splitLines]
+    simp [flatten_splitLines]
+  | cons ch pre ih =>
+    obtain ⟨hchne, hch⟩ := hpre ch (by simp)
+    have hne := wire_ne_nil ch hchne
+    have hsplit := splitLines_wire ch [] (fun r hr => (hch r hr).1)
+    simp only [List.append_nil, splitLines] at hsplit
+    simp only [List.map_cons, List.cons_append, getBanner, hne]
+    have hscan := scan_pass h0 (ch.map (· ++ [0x0a])) [] (by
+        intro r hr
+        obtain ⟨x, hx, rfl⟩ := List.mem_map.mp hr
+        rw [lineText_lf]; exact (hch x hx).2)
+    rw [List.append_nil] at hscan
+    rw [hsplit, hscan, shown_lf]
+    simp only [scan, Bool.false_eq_true, if_false]
+    rw [ih (h0 ++ shown ch) (fun c hc => hpre c (by simp [hc]))]
+    simp [shown_append, List.append_assoc]
+
+theorem scan_header (h0 : List Str) (raws : List Bytes) :
+    ∀ t ∈ (scan h0 raws).2.1, t ∈ h0 ∨ (parse t = none ∧ isBlankLine t = false) := by
+  induction raws generalizing h0 with
+  | nil => intro t ht; exact Or.inl ht
+  | cons r raws ih =>
+    intro t ht
+    simp only [scan] at ht
+    split at ht
+    · exact ih h0 t ht
+    · next hb =>
+      split at ht
+      · exact Or.inl ht
+      · next hp =>
+        rcases ih _ t ht with h | h
+        · rcases List.mem_append.mp h with h | h
+          · exact Or.inl h
+          · simp only [List.mem_cons, List.not_mem_nil, or_false] at h
+            subst h
+            exact Or.inr ⟨hp, by simpa using hb⟩
+        · exact Or.inr h
+
+/-- **no banner is ever reported as header text**, for every segmentation of the stream: each
+    header line returned is a non-blank line that is not a banner -/
+theorem header_never_banner (h0 : List Str) (chunks : List Bytes) :
+    ∀ t ∈ (getBanner h0 chunks).header, t ∈ h0 ∨ (parse t = none ∧ isBlankLine t = false) := by
+  induction chunks generalizing h0 with
+  | nil => intro t ht; exact Or.inl ht
+  | cons ch chunks ih =>
+    intro t ht
+    simp only [getBanner] at ht
+    split at ht
+    · exact Or.inl ht
+    · have hsc := scan_header h0 (splitLines ch)
+      split at ht
+      · next b h rest heq => rw [heq] at hsc; exact hsc t ht
+      · next h rest heq =>
+        rw [heq] at hsc
+        rcases ih h t ht with h' | h'
+        · exact hsc t h'
+        · exact Or.inr h'
+
+theorem scan_banner (h0 : List Str) (raws : List Bytes) (b : Banner.Banner) (h : (scan h0 raws).1 = some b) :
+    ∃ raw ∈ raws, parse (lineText raw) = some b := by
+  induction raws generalizing h0 with
+  | nil => simp [scan] at h
+  | cons r raws ih =>
+    simp only [scan] at h
+    split at h
+    · obtain ⟨raw, hr, hp⟩ := ih h0 h
+      exact ⟨raw, List.mem_cons_of_mem _ hr, hp⟩
+    · split at h
+      · next b' hp =>
+        simp only [Option.some.injEq] at h
+        subst h
+        exact ⟨r, by simp, hp⟩
+      · obtain ⟨raw, hr, hp⟩ := ih _ h
+        exact ⟨raw, List.mem_cons_of_mem _ hr, hp⟩
+
+/-- the banner returned is the parse of one of the lines as they were cut out of the `recv`
+    results -/
+theorem banner_is_a_line (h0 : List Str) (chunks : List Bytes) (b : Banner.Banner)
+    (h : (getBanner h0 chunks).banner = some b) :
+    ∃ ch ∈ chunks, ∃ raw ∈ splitLines ch, parse (lineText raw) = some b := by
+  induction chunks generalizing h0 with
+  | nil => simp [getBanner] at h
+  | cons ch chunks ih =>
+    simp only [getBanner] at h
+    split at h
+    · simp at h
+    · have hsc := scan_banner h0 (splitLines ch)
+      split at h
+      · next b' hh rest heq =>
+        rw [heq] at hsc
+        simp only at h
+        obtain ⟨raw, hr, hp⟩ := hsc b' rfl
+        simp only [Option.some.injEq] at h
+        subst h
+        exact ⟨ch, by simp, raw, hr, hp⟩
+      · next hh rest heq =>
+        obtain ⟨c, hc, raw, hr, hp⟩ := ih hh h
+        exact ⟨c, List.mem_cons_of_mem _ hc, raw, hr, hp⟩
+
+/-- `SSH-2.0-Open` -/
+def d17a : Bytes := [0x53, 0x53, 0x48, 0x2d, 0x32, 0x2e, 0x30, 0x2d, 0x4f, 0x70, 0x65, 0x6e]
+/-- `SSH_8.0\r\n` -/
+def d17b : Bytes := [0x53, 0x53, 0x48, 0x5f, 0x38, 0x2e, 0x30, 0x0d, 0x0a]
+
+/-- KNOWN FINDING D17, the witness: the banner line `SSH-2.0-OpenSSH_8.0\r\n` delivered in two
+    `recv` results is reported with software `Open`; delivered in one piece, with `OpenSSH_8.0`. -/
+theorem segmented_witness :
+    getBanner [] [d17a, d17b]
+      = { banner := some { protocol := (2, 0), software := some "Open".toList, comments := none, validAscii := true },
+          header := [], unread := [] } ∧
+    getBanner [] [d17a ++ d17b]
+      = { banner := some { protocol := (2, 0), software := some "OpenSSH_8.0".toList, comments := none, validAscii := true },
+          header := [], unread := [] } := by
+  decide +kernel
+
+/-- KNOWN FINDING D17: `header_separation` does **not** extend to arbitrary segmentations of the
+    byte stream — what `get_banner` reports depends on where the stream was cut. -/
+theorem header_separation_segmented_false :
+    ¬ ∀ (c1 c2 : Bytes) (later : List Bytes), c1 ≠ [] → c2 ≠ [] →
+        (getBanner [] (c1 :: c2 :: later)).banner = (getBanner [] ((c1 ++ c2) :: later)).banner := by
+  intro h
+  have h1 := h d17a d17b [] (by decide) (by decide)
+  rw [segmented_witness.1, segmented_witness.2] at h1
+  revert h1
+  decide
+
+/-! ### non-vacuity -/
+
+example : parse "SSH-2.0-OpenSSH_8.9p1 Ubuntu-3ubuntu0.1".toList
+    = some { protocol := (2, 0), software := some "OpenSSH_8.9p1".toList, comments := some "Ubuntu-3ubuntu0.1".toList, validAscii := true } := by
+  decide +kernel
+example : Token "OpenSSH_8.9p1".toList := ⟨by decide, by decide, by decide +kernel⟩
+example : WfPair ('1', "99".toList) := ⟨by decide, by decide, by decide⟩
+example : parse "SSH-1.99-SSH-2.0-x  a   b ".toList
+    = some { protocol := (1, 99), software := some ['x'], comments := some "a b".toList, validAscii := true } := by
+  decide +kernel
+example : (parse ("SSH-2.0-dropbear_2019.78 caf" ++ "é\t!").toList).map (fun b => (render b, b.validAscii))
+    = some ("SSH-2.0-dropbear_2019.78 caf??!".toList, false) := by
+  decide +kernel
+example : getBanner [] ["hello\r\n\r\nSSH-2.0-x\r\nrest".toUTF8.toList]
+    = { banner := some { protocol := (2, 0), software := some ['x'], comments := none, validAscii := true },
+        header := ["hello".toList], unread := "rest".toUTF8.toList } := by
+  decide +kernel
+
 end SshAudit.C16
